@@ -209,7 +209,15 @@ func (d *DeadlineChan[T]) SetDeadline(t time.Time) error {
 	if d.closed.Load() {
 		return io.EOF
 	}
-	return d.deadline.SetDeadline(t)
+	err := d.deadline.SetDeadline(t)
+	if d.closed.Load() {
+		// Close ran in between. Setting a deadline un-expires the deadline
+		// channel, which would leave operations that started before the close
+		// blocked for ever; a closed queue stays cancelled.
+		d.deadline.Cancel(io.EOF)
+		return io.EOF
+	}
+	return err
 }
 
 // Cancel cancels pending calls to Send and Recv and causes them to return err
